@@ -156,6 +156,9 @@ type httpFaultSpec struct {
 	Format     string
 	Lat        time.Duration
 	Chunk      int
+	// diagnostics of the gun that read or rewrite the request and the response on the way
+	Trace, Dump bool
+	AnswLog     string // "", all, warning, error
 }
 
 type httpFaultOutcome struct {
@@ -193,6 +196,10 @@ func genHTTPFaultSpec(r *R, faults bool) httpFaultSpec {
 	sp.Format = []string{"uri", "json"}[w.Draw(2)]
 	sp.Lat = []time.Duration{100 * time.Microsecond, 2 * time.Millisecond, 30 * time.Millisecond}[w.Draw(3)]
 	sp.Chunk = []int{0, 0, 1, 13, 500}[w.Draw(5)]
+	if w.Draw(3) == 0 {
+		sp.Trace, sp.Dump = w.Bool(), w.Bool()
+		sp.AnswLog = []string{"", "all", "warning", "error"}[w.Draw(4)]
+	}
 	for i := 0; i < sp.Entries; i++ {
 		tag := ""
 		if w.Draw(3) != 0 {
@@ -223,7 +230,7 @@ func (sp httpFaultSpec) describe() map[string]any {
 		bs = append(bs, fmt.Sprintf("%s/%d", b.Kind, b.Status))
 	}
 	return map[string]any{"entries": sp.Entries, "passes": sp.Passes, "instances": sp.Inst, "gun": sp.Gun, "auto_tag": sp.AutoTag, "uri_elements": sp.URIElems, "no_tag_only": sp.NoTagOnly,
-		"keep_alive": sp.KeepAlive, "tags": sp.Tags, "paths": sp.Paths, "methods": sp.Methods, "peer": bs, "conn_faults": sp.ConnFaults, "format": sp.Format, "latency": sp.Lat.String(), "chunk": sp.Chunk}
+		"keep_alive": sp.KeepAlive, "tags": sp.Tags, "paths": sp.Paths, "methods": sp.Methods, "peer": bs, "conn_faults": sp.ConnFaults, "format": sp.Format, "latency": sp.Lat.String(), "chunk": sp.Chunk, "httptrace": fmt.Sprintf("trace=%v dump=%v", sp.Trace, sp.Dump), "answlog": sp.AnswLog}
 }
 
 func runHTTPFaults(r *R, sp httpFaultSpec) *httpFaultOutcome {
@@ -260,6 +267,13 @@ func runHTTPFaults(r *R, sp httpFaultSpec) *httpFaultOutcome {
 	gun := map[string]interface{}{"type": sp.Gun, "target": target, "disable-keep-alives": !sp.KeepAlive, "response-header-timeout": "2s",
 		"dial":     map[string]interface{}{"timeout": "1s"},
 		"auto-tag": map[string]interface{}{"enabled": sp.AutoTag, "uri-elements": sp.URIElems, "no-tag-only": sp.NoTagOnly}}
+	if sp.Trace || sp.Dump {
+		gun["httptrace"] = map[string]interface{}{"trace": sp.Trace, "dump": sp.Dump}
+	}
+	if sp.AnswLog != "" {
+		// (the answer log is a real file opened with os.Create: the null device)
+		gun["answlog"] = map[string]interface{}{"enabled": true, "path": "/dev/null", "filter": sp.AnswLog}
+	}
 	var peer *rawPeer
 	var proxyFaults int32
 	arrivals := make([]int, sp.Entries)
